@@ -54,6 +54,20 @@ def gen_case(seed, tier):
     pre['backend'] = rng.choice(['sim', 'sim', 'local'])
     if pre['backend'] == 'local':
         pre['flavour'] = 'sync'
+        if rng.random() < 0.6:
+            # identical chunks in flight at the same time: several workers upload the same location concurrently
+            import base64
+            mx = rng.choice([16, 32, 64])
+            pre['settings']['chunking'] = {'min_length': mx, 'max_length': mx}
+            block = rng.randbytes(mx)
+            pre['contents'][0] = base64.b64encode(block * rng.choice([4, 6, 9]) + rng.randbytes(5)).decode()
+            for u in pre['users']:
+                u['N'] = rng.choice([2, 3, 4])
+            if victim['op'] != 'snapshot' and rng.random() < 0.7:
+                victim = pre['victim'] = {'op': 'snapshot', 'u': victim['u'], 'files': fs, 'at': 10**6, 'mt': 1_700_000_000, 'note': None}
+            if victim['op'] == 'snapshot':
+                victim['files'] = dict(victim['files'])
+                victim['files'][paths[0]] = 0
     return pre
 
 
@@ -285,8 +299,9 @@ def run_case(case):
         if M > MAX_POINTS:
             crash_points = sorted(set([0, 1, M - 2, M - 1] + rng.sample(range(M), MAX_POINTS - 4)))
         fail_points = list(range(C))
-        if C > MAX_POINTS:
-            fail_points = sorted(set([0, C - 1] + rng.sample(range(C), MAX_POINTS - 2)))
+        fmax = MAX_POINTS if local is None else 16
+        if C > fmax:
+            fail_points = sorted(set([0, C - 1] + rng.sample(range(C), fmax - 2)))
         plan = [('crash', k, None) for k in crash_points]
         for j in fail_points:
             plan.append(('fail', j, 'before'))
